@@ -2,3 +2,4 @@
 import GnarkVerif.Props.C15
 import GnarkVerif.Props.C01
 import GnarkVerif.Props.C09
+import GnarkVerif.Props.C10
